@@ -163,7 +163,10 @@ def object_and_race_probes(rep, cov, tier, rng):
                               "signature of the same key and message (first: message %s as 4-byte LE, key seed %s)"
                               % (cp, "?" if r is None else r[1], "?" if r is None else r[0], threads, "?" if r is None else r[2], sd.hex()),
                               {"cases": [{"fn": "sign_race", "copy": cp, "args": [str(threads), str(iters), "x" + sd.hex()]}]}, True)
-        plan = [(4, 24, 1 << 17)] if tier == "quick" else [(2, 150, 1 << 18), (8, 60, 1 << 18), (16, 40, 1 << 16)]
+        # long messages widen a check-then-use window that spans the message hash; SHORT messages in high volume are needed for
+        # a window of a few instructions (e.g. a shared cache looked up under one lock and copied out under a second one)
+        plan = ([(4, 24, 1 << 17), (16, 6000, 8)] if tier == "quick"
+                else [(2, 150, 1 << 18), (8, 60, 1 << 18), (16, 40, 1 << 16), (16, 40000, 8), (8, 40000, 8), (3, 60000, 8)])
         for threads, iters, mlen in plan:
             r = crate([("verify_race", cp, [threads, iters, mlen])])[0]
             n += threads * iters
